@@ -154,6 +154,8 @@ func vPropID() string {
 		return "C04"
 	case 7:
 		return "C07"
+	case 17:
+		return "C17"
 	}
 	return "C03"
 }
